@@ -82,6 +82,11 @@ def run(ctx, profile=PROFILE, checks=CHECKS, strict=STRICT, depth=None, nrand=No
     for k, v in counters.items():
         ctx.count(k, v)
     ctx.extra["distinct_states_visited"] = len(STATES)
+    if ctx.tier == "thorough" and ctx.shard == 0 and profile in ("C01", "C02", "C19"):
+        # E8: the repository's own test suite as one more workload under the model-free invariants
+        from egverif import suite
+
+        suite.run(ctx, profile)
     ctx.assumptions += [
         "vertices compare by identity; invariant evaluated only at client-call boundaries, over everything reachable "
         "from the pool through public accessors",
